@@ -18,7 +18,9 @@ LEVEL_TEXT = ('Static decision of the structural necessary conditions: every poi
               'an inductive bound template (step halves before each accumulation, orientation entries confined to '
               '{-1,0,1}) and is mapped by the exact affine cube->box map of the problem\'s own bounds; the local '
               'optimiser is called with bounds built from the problem\'s bounds and a method that clips to them; '
-              'start point, objective and stored value of the refinement are wired to the same problem and trial.')
+              'start point, objective and stored value of the refinement are wired to the same problem and trial; no '
+              'input of the optimiser call reads state left behind by an earlier refinement and a start-overriding '
+              'option is computed from x0.')
 EXPLANATION = ('Provenance of evaluated points is read off path summaries; the cube bound is an inductive invariant '
                'checked on the syntax of the level loop plus a closure (type-like) check of every store into the '
                'orientation arrays; the affine map is compared algebraically; the optimiser call is checked on its '
